@@ -323,14 +323,6 @@ Lemma every_builder_has_a_spec : all_builders_specified = true.
 Proof. vm_compute. reflexivity. Qed.
 Lemma every_check_is_canonical : forallb (fun t => snd t) check_is_check_ref_then_unwrap = true.
 Proof. vm_compute. reflexivity. Qed.
-Lemma blanket_impls_are_canonical :
-  blanket_fit_calls_check_ref_first && blanket_fit_with_calls_check_ref_first
-  && blanket_transform_calls_check_ref_first = true.
-Proof. vm_compute. reflexivity. Qed.
-Lemma explicit_entry_points_are_canonical :
-  forallb (fun t => snd t) explicit_unchecked_entry_points = true.
-Proof. vm_compute. reflexivity. Qed.
-
 Lemma check_by_value_spec {Err P} (cr : P -> option Err) (p : P) :
   match check_by_value cr p with
   | inl e => cr p = Some e
